@@ -408,8 +408,10 @@ func runC06(r *core.Run) (bool, string) {
 		ref := s.run(s.bin, "ref", nil, fs.Flags, allPatterns, len(s.pkgs))
 		if cr, why := ref.iv.crashed(); cr {
 			wg.Wait()
-			r.Inconclusive("reference-run-crashed")
-			return false, "the reference run crashed: " + why
+			// every package of the corpus translates (or fails with errors) on its own; an abort of the
+			// invocation that takes them all is the packages influencing each other, or a race
+			r.Violate("all-packages-invocation-crashed", "goose aborts when all "+fmt.Sprint(len(s.pkgs))+" corpus packages are translated in one invocation: "+why, map[string]interface{}{"command": ref.iv.cmdline(), "stderr": clip(ref.iv.res.Stderr, 6000)})
+			return true, ""
 		}
 		refs[fs.Name] = ref
 		r.Count("goose_invocations_all_packages", 1)
